@@ -47,7 +47,9 @@ CONSTANTS
     Solvers,        \* stand-alone solver names
     Blocks,         \* equation block names
     Shape,          \* Models -> [newIds, headPre, headSectors, sectors, asks, byId, own, horizon]
-    BlockInfo,      \* Blocks -> [vars, early, func, horizon]
+    BlockInfo,      \* Blocks -> [vars, early, func, horizon, tol, mtLine, tolLine]: a block is a body of equations
+                    \* plus OPTIONAL settings lines (MaxTime = .., Err_Tolerance = ..); without a line the
+                    \* parser default holds (horizon 0, tolerance "default")
     LogNames,       \* the standard log names
     TraceSteps,     \* values TraceStep may take (0 = None)
     FuncBodies,     \* bodies a user function of the one name the blocks call may have
@@ -59,8 +61,10 @@ CONSTANTS
     Hyp_SharedFunctions,            \* TRUE: hypothetical "one function table for all solvers" (MC_Process_hyp_sharedfunc.cfg)
     Hyp_RhsCachedByName,            \* TRUE: hypothetical "right-hand sides cached per variable name across ParseString"
                                     \* (MC_Process_hyp_rhscache.cfg: breaks C17_ReparseClean)
-    Hyp_SteadyOneShot               \* TRUE: hypothetical "the steady-state option is consumed by the first solve"
+    Hyp_SteadyOneShot,              \* TRUE: hypothetical "the steady-state option is consumed by the first solve"
                                     \* (MC_Process_hyp_steady.cfg: breaks C17_HistoryIndependent / C17_ResolveIdempotent)
+    Hyp_SettingsSurviveReparse      \* TRUE: hypothetical "MaxTime / Err_Tolerance of the previous block stand unless the new
+                                    \* block has a line for them" (MC_Process_hyp_settings.cfg: breaks C17_ReparseClean)
 
 Holders == Solvers \cup Models      \* everything that owns an EquationSolver
 
@@ -69,7 +73,8 @@ NoDecl   == [sectorIds |-> << >>, ph |-> {}, refs |-> {}]
 NoResult == [names |-> {}, leaked |-> {}, booked |-> {}]
 NoFunc   == "none"
 NoSeries == [keys |-> {}, full |-> TRUE, ok |-> TRUE, body |-> NoFunc, own |-> NoFunc, eqs |-> NoBlock,
-             ss |-> FALSE, want |-> FALSE]
+             ss |-> FALSE, want |-> FALSE, tol |-> "default", hz |-> 0]
+NoSettings == [tol |-> "default", hz |-> 0]          \* what a new parser holds
 
 ----------------------------------------------------------------------------
 (* Logger *)
@@ -122,44 +127,57 @@ Expected(m) ==      \* a function of m's own declarations only
 (* Solvers.  BlockInfo[b].vars: the variables of b (without the time axis "k"; blocks   *)
 (* may share variable names and give them different right-hand sides);                 *)
 (* .early: those that get a full series during SetInitialConditions (exogenous);        *)
-(* .func: b calls the user function.                                                   *)
+(* .func: b calls the user function; .horizon / .tol: the horizon and tolerance b is     *)
+(* solved with when it is parsed by a new solver; .mtLine / .tolLine: b states them.    *)
 SeriesKeys(b) == BlockInfo[b].vars \cup {"k"}
+
+(* the settings the solver's parser holds after ParseString(b): every parse starts from *)
+(* the defaults; only a line of the block changes them                                  *)
+SettingsOp(old, b) ==
+    LET base == IF Hyp_SettingsSurviveReparse THEN old ELSE NoSettings
+    IN [tol |-> IF BlockInfo[b].tolLine THEN BlockInfo[b].tol ELSE base.tol,
+        hz  |-> IF BlockInfo[b].mtLine THEN BlockInfo[b].horizon ELSE base.hz]
 
 ParseOp(vl) == IF AsFound_VarListCached THEN vl ELSE {}
 
 (* fn: the function body the solver evaluates with, own: the body the solver itself     *)
 (* registered, rf: the block whose right-hand sides it holds from earlier evaluations,  *)
-(* ss: the initial steady-state search runs, want: the option as the user set it        *)
-SolveOp(b, vl, tr, fn, own, rf, ss, want) ==
+(* ss: the initial steady-state search runs, want: the option as the user set it,       *)
+(* sg: the settings (tolerance class, horizon) the parser holds                         *)
+SolveOp(b, vl, tr, fn, own, rf, ss, want, sg) ==
     LET used       == IF vl = {} THEN BlockInfo[b].vars ELSE vl      \* ExtractVariableList only when empty
         keys       == used \cup BlockInfo[b].early \cup {"k"}
         complete   == BlockInfo[b].vars \subseteq keys               \* else KeyError in the first step
-        traceFails == AsFound_TraceBreaksFunctions /\ fn # NoFunc /\ tr \in 1..BlockInfo[b].horizon
+        evaluates  == sg.hz >= 1 \/ ss                               \* some period is iterated (horizon 0: none)
         noFunction == BlockInfo[b].func /\ fn = NoFunc               \* NameError in the first step
-        good       == complete /\ ~traceFails /\ ~noFunction
+        firstFails == evaluates /\ (~complete \/ noFunction)
+        traceFails == ~firstFails /\ AsFound_TraceBreaksFunctions /\ fn # NoFunc /\ tr \in 1..sg.hz
+        good       == ~firstFails /\ ~traceFails
     IN [varList |-> used,
-        started |-> IF ~complete \/ noFunction THEN (IF ss THEN 0 ELSE 1)   \* periods begun: the first one already fails
+        started |-> IF firstFails THEN (IF ss THEN 0 ELSE 1)           \* periods begun: the first one already fails
                                                                        \* (inside the steady-state search if that runs),
                     ELSE IF traceFails THEN tr                         \* the traced one fails,
-                    ELSE BlockInfo[b].horizon,                         \* all
+                    ELSE sg.hz,                                        \* all
         series  |-> [keys |-> keys,
-                     full |-> good /\ keys = SeriesKeys(b),
+                     full |-> good /\ keys = SeriesKeys(b) /\ sg.hz = BlockInfo[b].horizon,
                      ok   |-> good,
                      body |-> IF BlockInfo[b].func THEN fn ELSE NoFunc,
                      own  |-> IF BlockInfo[b].func THEN own ELSE NoFunc,
                      eqs  |-> IF rf = NoBlock THEN b ELSE rf,
                      ss   |-> ss,
-                     want |-> want]]
+                     want |-> want,
+                     tol  |-> sg.tol,
+                     hz   |-> sg.hz]]
 
 ----------------------------------------------------------------------------
 VARIABLES nextId, logs,
           mstate, decl, result,
-          block, varList, series, solved, func, reg, rhsFrom, steady, wantSteady, nK, parses,
+          block, varList, series, solved, func, reg, rhsFrom, steady, wantSteady, setg, nK, parses,
           traceStep,
           hist
 
 mvars == << mstate, decl, result >>
-svars == << block, varList, series, solved, func, reg, rhsFrom, steady, wantSteady, nK, parses >>
+svars == << block, varList, series, solved, func, reg, rhsFrom, steady, wantSteady, setg, nK, parses >>
 vars  == << nextId, logs, mvars, svars, traceStep, hist >>
 
 Init ==
@@ -177,6 +195,7 @@ Init ==
     /\ rhsFrom = [s \in Solvers |-> NoBlock]
     /\ steady = [s \in Solvers |-> FALSE]
     /\ wantSteady = [s \in Solvers |-> FALSE]
+    /\ setg = [s \in Solvers |-> NoSettings]
     /\ nK = [s \in Solvers |-> 0]
     /\ parses = [s \in Solvers |-> 0]
     /\ traceStep = [x \in Holders |-> 0]
@@ -235,6 +254,7 @@ Reparse(s, b) ==
     /\ varList' = [varList EXCEPT ![s] = ParseOp(@)]
     /\ solved' = [solved EXCEPT ![s] = FALSE]
     /\ rhsFrom' = [rhsFrom EXCEPT ![s] = IF Hyp_RhsCachedByName THEN @ ELSE NoBlock]   \* a new block brings its own equations
+    /\ setg' = [setg EXCEPT ![s] = SettingsOp(@, b)]                                   \* ... and its own settings
     /\ nK' = [nK EXCEPT ![s] = 0]                                   \* new parser object
     /\ parses' = [parses EXCEPT ![s] = @ + 1]
     /\ Note("Reparse", s, b, 0)
@@ -245,17 +265,17 @@ AddFunction(s, f) ==
     /\ reg' = [reg EXCEPT ![s] = f]
     /\ func' = IF Hyp_SharedFunctions THEN [t \in Solvers |-> f] ELSE [func EXCEPT ![s] = f]
     /\ Note("AddFunction", s, f, 0)
-    /\ UNCHANGED << nextId, logs, mvars, block, varList, series, solved, rhsFrom, steady, wantSteady, nK, parses, traceStep >>
+    /\ UNCHANGED << nextId, logs, mvars, block, varList, series, solved, rhsFrom, steady, wantSteady, setg, nK, parses, traceStep >>
 
 SetSteady(s, on) ==
     /\ on # wantSteady[s]
     /\ wantSteady' = [wantSteady EXCEPT ![s] = on]
     /\ steady' = [steady EXCEPT ![s] = on]
     /\ Note("SetSteady", s, "", IF on THEN 1 ELSE 0)
-    /\ UNCHANGED << nextId, logs, mvars, block, varList, series, solved, func, reg, rhsFrom, nK, parses, traceStep >>
+    /\ UNCHANGED << nextId, logs, mvars, block, varList, series, solved, func, reg, rhsFrom, setg, nK, parses, traceStep >>
 
 DoSolve(s, name) ==
-    LET r == SolveOp(block[s], varList[s], traceStep[s], func[s], reg[s], rhsFrom[s], steady[s], wantSteady[s])
+    LET r == SolveOp(block[s], varList[s], traceStep[s], func[s], reg[s], rhsFrom[s], steady[s], wantSteady[s], setg[s])
     IN /\ varList' = [varList EXCEPT ![s] = r.varList]
        /\ series' = [series EXCEPT ![s] = r.series]
        /\ solved' = [solved EXCEPT ![s] = TRUE]
@@ -266,7 +286,7 @@ DoSolve(s, name) ==
                   IN IF traceStep[s] \in 1..r.started THEN Touch(l1, "step") ELSE l1     \* the traced period was begun
        /\ Note(name, s, block[s], 0)
        /\ rhsFrom' = [rhsFrom EXCEPT ![s] = r.series.eqs]
-       /\ UNCHANGED << nextId, mvars, block, func, reg, wantSteady, parses, traceStep >>
+       /\ UNCHANGED << nextId, mvars, block, func, reg, wantSteady, setg, parses, traceStep >>
 
 Solve(s)      == block[s] # NoBlock /\ ~solved[s] /\ DoSolve(s, "Solve")
 SolveAgain(s) == block[s] # NoBlock /\ solved[s] /\ DoSolve(s, "SolveAgain")
@@ -292,15 +312,19 @@ Spec == Init /\ [][Next]_vars
 (* C17 *)
 C17_HistoryIndependent ==
     /\ \A m \in Models : mstate[m] = "built" => result[m] = Expected(m)
-    /\ \A s \in Solvers : (solved[s] /\ series[s].keys = SeriesKeys(block[s])) =>
+    /\ \A s \in Solvers : (/\ solved[s] /\ series[s].keys = SeriesKeys(block[s])
+                            /\ series[s].hz = BlockInfo[block[s]].horizon /\ series[s].tol = BlockInfo[block[s]].tol) =>
           /\ series[s].body = series[s].own            \* evaluated with what this solver registered itself
           /\ series[s].ss = series[s].want             \* the steady-state search ran iff this solver is configured so
-          /\ series[s].ok = ~(BlockInfo[block[s]].func /\ series[s].own = NoFunc)   \* fails iff its function is missing
+          /\ series[s].ok = ~(/\ BlockInfo[block[s]].func /\ series[s].own = NoFunc     \* fails iff its function is missing
+                              /\ (series[s].hz >= 1 \/ series[s].ss))                   \* and something is iterated
           /\ series[s].full = series[s].ok
 
 C17_ReparseClean ==
     \A s \in Solvers : solved[s] => /\ series[s].keys = SeriesKeys(block[s])
                                     /\ series[s].eqs = block[s]        \* no right-hand side of the previous block
+                                    /\ series[s].hz = BlockInfo[block[s]].horizon   \* nor its horizon
+                                    /\ series[s].tol = BlockInfo[block[s]].tol      \* nor its tolerance
 
 (* action property: solving again (whatever the trace setting is now) leaves the series as they were, *)
 (* unless the solver itself was given another function or another option in between                    *)
